@@ -147,6 +147,7 @@ var (
 func GetHtpasswdMatcher(filename, username, siteRoot string) (PasswordMatcher, error) {
 	filename = filepath.Join(siteRoot, filename)
 	htpasswordsMu.Lock()
+	defer htpasswordsMu.Unlock()
 	if htpasswords == nil {
 		htpasswords = make(map[string]map[string]PasswordMatcher)
 	}
@@ -163,7 +164,6 @@ func GetHtpasswdMatcher(filename, username, siteRoot string) (PasswordMatcher, e
 		}
 		htpasswords[filename] = pm
 	}
-	htpasswordsMu.Unlock()
 	if pm[username] == nil {
 		return nil, fmt.Errorf("username %q not found in %q", username, filename)
 	}
